@@ -166,7 +166,31 @@ pub fn main_locks(args: &Args) {
         if let Some(text) = file.and_then(|f| hulc_read(&f)) {
             if let Ok(m) = convert_text(&text) {
                 out.push(json!({"ev": "IdMap", "input": name, "variant": "base", "ids": id_map(&m)}));
-                for (variant, snippet) in UNRELATED.iter() {
+                // unused definitions that refer to existing ones: a construction over an existing layer set with another
+                // absorptance, a window construction over an existing glazing and frame, a week over an existing day
+                let first_named = |btype: &str| -> Option<String> {
+                    text.lines().find_map(|l| {
+                        let t = l.trim();
+                        if t.starts_with('"') && t.ends_with(btype) && t[..t.len() - btype.len()].trim_end().ends_with('=') {
+                            t[1..].find('"').map(|e| t[1..1 + e].to_string())
+                        } else {
+                            None
+                        }
+                    })
+                };
+                let mut dynamic: Vec<(String, String)> = vec![];
+                if let Some(l) = first_named("LAYERS") {
+                    dynamic.push(("plus_construction".into(), format!("\n\"{}0.95\" = CONSTRUCTION\n  TYPE = LAYERS\n  LAYERS = \"{}\"\n  ABSORPTANCE = 0.95\n  ..\n", l, l)));
+                    dynamic.push(("plus_construction_z".into(), format!("\n\"ZZZ_VERIF_CONS\" = CONSTRUCTION\n  TYPE = LAYERS\n  LAYERS = \"{}\"\n  ABSORPTANCE = 0.15\n  ..\n", l)));
+                }
+                if let (Some(g), Some(f)) = (first_named("GLASS-TYPE"), first_named("NAME-FRAME")) {
+                    dynamic.push(("plus_gap".into(), format!("\n\"ZZZ_VERIF_GAP\" = GAP\n  NAME = \"ZZZ_VERIF_GAP\"\n  TYPE = 1\n  GROUP = \"Usuario\"\n  GROUP-GLASS = \"Vidrios\"\n  GLASS-TYPE = \"{}\"\n  GROUP-FRAME = \"Marcos\"\n  NAME-FRAME = \"{}\"\n  PORCENTAGE = 33\n  INF-COEF = 9\n  porcentajeIncrementoU = 7\n  ..\n", g, f)));
+                }
+                if let Some(d) = first_named("DAY-SCHEDULE-PD") {
+                    dynamic.push(("plus_week".into(), format!("\n\"ZZZ_VERIF_WEEK\" = WEEK-SCHEDULE-PD\n  TYPE = FRACTION\n  DAY-SCHEDULES = ( \"{}\" )\n  ..\n", d)));
+                }
+                let all: Vec<(String, String)> = UNRELATED.iter().map(|(a, b)| (a.to_string(), b.to_string())).chain(dynamic.into_iter()).collect();
+                for (variant, snippet) in all.iter() {
                     if let Some(t2) = with_unrelated(&text, snippet) {
                         match convert_text(&t2) {
                             Ok(m2) => out.push(json!({"ev": "IdMap", "input": name, "variant": variant, "ids": id_map(&m2)})),
